@@ -154,4 +154,24 @@ theorem queue_order_capacity (cap : Int) (hc : 0 ≤ cap) (ops : List QOp) (h : 
   rw [size_eq _ hinv, hitems]
   exact ⟨runSpec_desc cap [] List.Pairwise.nil ops, reference_capacity cap hc ops⟩
 
+/-- **ties in arrival order, globally**: for every capacity, op sequence and level choice, the
+queue's walk order can be stamped with arrival indices — each item carries the index (in `ops`) of
+the `Push` that admitted it — such that the walk is ordered by `Rank`: strictly higher score first,
+and among equal scores the earlier arrival first. -/
+theorem ties_in_arrival_order (cap : Int) (ops : List QOp) (h : ∀ o ∈ ops, o.levelOk) :
+    ∃ L : List (Nat × Item),
+      (runQ (Queue.new cap) ops).1.items = L.map (·.2) ∧
+      L.Pairwise Rank ∧
+      ∀ p ∈ L, ∃ lvl, ops[p.1]? = some (.push p.2 lvl) := by
+  obtain ⟨_, hitems, _⟩ := queue_refines_sortedlist cap ops h
+  obtain ⟨h1, h2, h3⟩ := runStamped_spec cap ops [] [] List.Pairwise.nil (by simp) (by simp)
+  refine ⟨runStamped cap [] 0 ops, ?_, h2, ?_⟩
+  · rw [hitems]; exact h1.symm
+  · simpa using h3
+
+/-- non-vacuity: three equal scores pushed at ops 0, 1, 3 (op 2 removes the first): walk = arrival order -/
+example : runStamped 5 [] 0
+    [.push ⟨1, 5, 0, 1⟩ 1, .push ⟨2, 5, 0, 1⟩ 2, .remove 1, .push ⟨1, 5, 0, 1⟩ 1, .push ⟨3, 9, 0, 1⟩ 1]
+    = [(4, ⟨3, 9, 0, 1⟩), (1, ⟨2, 5, 0, 1⟩), (3, ⟨1, 5, 0, 1⟩)] := by decide
+
 end C24
